@@ -3,6 +3,7 @@
 //! Four kinds of cases, all produced by the REAL kanidm code:
 //!  * CPw / CLoad : passwords of every KDF constructor through Password::to_dbpasswordv1 /
 //!                  TryFrom<DbPasswordV1>, with Password::verify before and after;
+//!  * CMsg        : the expiry of a queued credential-reset message before / after the round trip;
 //!  * CVs         : a valueset of every in-memory valueset type through
 //!                  to_db_valueset_v2 -> serde_json -> from_db_valueset_v2;
 //!  * CDb / CRefresh / CIncr : whole entries (all entries of a live server and synthetic ones)
@@ -561,7 +562,7 @@ fn main() {
     let mut rng = Rng::new(args.seed);
     let mut sink = Sink::new(&args, "KV.C12.Model", 400);
     sink.rule = "passwords: every import format of libs/crypto with its known cleartext, random syntactically valid imports of every format, generated argon2id/pbkdf2 passwords of random cleartexts, random DbPasswordV1 of all 15 constructors; valuesets: 1..3 random elements of each of the 49 in-memory valueset types (hook generator), credentials built over every KDF; entries: every entry of a freshly initialised server plus synthetic entries over the generated valuesets (random change states incl. tombstones, empty sets, missing/multi uuid, unreplicated attributes, random incremental windows). non-trivial = a password that verifies a cleartext / a non-empty valueset / an entry with a non-empty attribute".into();
-    let scale = if args.thorough { 6 } else { 1 };
+    let scale = if args.thorough { 10 } else { 1 };
 
     // ---------------------------------------------------------------- passwords
     let policy = CryptoPolicy::danger_test_minimum();
@@ -650,6 +651,25 @@ fn main() {
                         if let Some(kanidm_proto::v1::OutboundMessage::CredentialResetV1 { expiry_time, .. }) = vs.as_message() {
                             if expiry_time.nanosecond() != 0 {
                                 tags.push(100);
+                            }
+                            // the expiry itself before / after the round trip (Part D of the model)
+                            let t = expiry_time.unix_timestamp_nanos();
+                            let t2 = guarded(AssertUnwindSafe(|| hk::vs_roundtrip(&vs)))
+                                .ok()
+                                .and_then(|tr| tr.back.ok())
+                                .and_then(|b| match b.as_message() {
+                                    Some(kanidm_proto::v1::OutboundMessage::CredentialResetV1 { expiry_time, .. }) => {
+                                        Some(expiry_time.unix_timestamp_nanos())
+                                    }
+                                    _ => None,
+                                });
+                            if let (true, Some(t2)) = (t >= 0, t2) {
+                                sink.bump("message_expiry");
+                                sink.case(
+                                    capp("CMsg", &[cn128(t as u128), cn128(t2.max(0) as u128)]),
+                                    format!("msgexpiry expiry_ns={} reloaded_expiry_ns={} value={:?}", t, t2, vs.as_message()),
+                                    true,
+                                );
                             }
                         }
                     }
